@@ -968,6 +968,8 @@ def install(R):
         from .engine import SymSeq
         if isinstance(v, SymSeq):
             return v.length
+        if type(v).__name__ == "ListView":
+            return v.size(E)
         if isinstance(v, _SD):
             return v.size()
         if is_sym(v) and z3.is_string(v):
@@ -1245,6 +1247,12 @@ def install(R):
     @reg("builtin.print")
     def _print(E, *a, **k):
         return None
+
+    @reg("bisect.insort")
+    def _insort(E, lst, item, *a, **k):
+        if type(lst).__name__ == "ListView":
+            return lst.insort(E, item, None)
+        raise Unsupported("bisect.insort into %s" % type(lst).__name__)
 
     @reg("builtin.super")
     def _super(E, *a):
